@@ -17,6 +17,10 @@
 #include <vector>
 #include <sstream>
 #include <fstream>
+#include <sys/wait.h>
+#include <sys/resource.h>
+#include <unistd.h>
+#include <csignal>
 
 #include "common/prng.hpp"
 
@@ -24,8 +28,16 @@ namespace multi = boost::multi;
 using T = int;
 using idx_t = multi::index;
 
-#ifndef PTR
+#ifndef PTR_KIND
+#define PTR_KIND 0
+#endif
+#if PTR_KIND == 0
 using Ptr = T*;
+template<class U> T* to_mut(U* p) { return const_cast<T*>(p); }
+#else
+#include "common/fancy_ptr.hpp"
+using Ptr = fancy::xptr<T>;
+using fancy::to_mut;
 #endif
 
 constexpr int MAXD = 5;
@@ -38,13 +50,19 @@ template<multi::dimensionality_type D> auto mk(VS<D> const& s) { return multi::s
 // result of an operation -> stored state (elements become 0-D states)
 template<class V> auto store(V&& v) -> decltype(std::decay_t<V>::rank_v, AnyView{}) {
 	constexpr auto D = std::decay_t<V>::rank_v;
-	return AnyView{VS<D>{v.layout(), const_cast<Ptr>(static_cast<T const*>(v.base()))}};
+	return AnyView{VS<D>{v.layout(), to_mut(v.base())}};
 }
-inline AnyView store(T& e) { return AnyView{VS<0>{multi::layout_t<0>{multi::extensions_t<0>{}}, &e}}; }
-inline AnyView store(T const& e) { return AnyView{VS<0>{multi::layout_t<0>{multi::extensions_t<0>{}}, const_cast<T*>(&e)}}; }
 
 static T* g_mem = nullptr;  // start of the address space; addresses are reported relative to it
 static long addr_of(T const* p) { return static_cast<long>(p - g_mem); }
+#if PTR_KIND == 0
+static Ptr make_ptr(long off) { return g_mem + off; }
+#else
+template<class U> static long addr_of(fancy::xptr<U> const& p) { return static_cast<long>(p.off()); }
+static Ptr make_ptr(long off) { return Ptr::at(off); }
+#endif
+inline AnyView store(T& e) { return AnyView{VS<0>{multi::layout_t<0>{multi::extensions_t<0>{}}, make_ptr(addr_of(&e))}}; }
+inline AnyView store(T const& e) { return AnyView{VS<0>{multi::layout_t<0>{multi::extensions_t<0>{}}, make_ptr(addr_of(&e))}}; }
 
 static FILE* fprog = nullptr;
 static FILE* fans = nullptr;
@@ -79,7 +97,7 @@ static std::vector<std::vector<long>> box(std::vector<Ex> const& ex) { std::vect
 // access paths ---------------------------------------------------------------------------------------------
 template<class V> T const* addr_bracket(V&& v, long const* idx) {
 	constexpr auto D = std::decay_t<V>::rank_v;
-	if constexpr(D == 0) { return v.base(); }
+	if constexpr(D == 0) { return &*v.base(); }
 	else if constexpr(D == 1) { return &v[idx[0]]; }
 	else { return addr_bracket(v[idx[0]], idx + 1); }
 }
@@ -142,7 +160,7 @@ template<multi::dimensionality_type D> void q_paths(VS<D> const& s) {
 	std::vector<long> call, cur;
 	bool zero_based = std::all_of(ex.begin(), ex.end(), [](Ex const& e) { return e.first == 0; });
 	for(auto const& idx : idxs) {
-		if constexpr(D == 0) { call.push_back(addr_of(v.base())); if(zero_based) cur.push_back(addr_of(v.base())); }
+		if constexpr(D == 0) { call.push_back(addr_of(&*v.base())); if(zero_based) cur.push_back(addr_of(&*v.base())); }
 		else {
 			long c1 = addr_of(addr_call(v, idx.data(), std::make_index_sequence<D>{}));
 			long c2 = addr_of(addr_call(std::as_const(v), idx.data(), std::make_index_sequence<D>{}));
@@ -257,6 +275,60 @@ template<multi::dimensionality_type D> void q_elems(VS<D> const& s) {
 		}
 		std::fprintf(fans, "elems %ld %ld : %s\n", n, viol, join(byinc).c_str());
 		if(viol != 0) std::fprintf(fans, "LAW-VIOLATION elements() iterator laws: %ld checks failed\n", viol);
+	}
+}
+
+// death tests (C20) --------------------------------------------------------------------------------------------
+// runs f() in a forked child; reports how the child ended: "abort assert-in-multi" (SIGABRT with an assertion message
+// naming a file under boost/multi), "abort other", "none" (returned normally), "sig<k>"
+template<class F> std::string run_child(F&& f) {
+	std::fflush(fprog); std::fflush(fans); std::fflush(stdout);
+	int fds[2]; if(pipe(fds) != 0) return "pipe-failed";
+	pid_t pid = fork();
+	if(pid == 0) {
+		struct rlimit rl{0, 0}; setrlimit(RLIMIT_CORE, &rl);
+		dup2(fds[1], 2); close(fds[0]); close(fds[1]);
+		f();
+		_exit(0);
+	}
+	close(fds[1]);
+	std::string err; char buf[512]; ssize_t n;
+	while((n = read(fds[0], buf, sizeof buf)) > 0) err.append(buf, static_cast<std::size_t>(n));
+	close(fds[0]);
+	int st = 0; waitpid(pid, &st, 0);
+	if(WIFEXITED(st)) return WEXITSTATUS(st) == 0 ? "none" : "exit" + std::to_string(WEXITSTATUS(st));
+	if(WIFSIGNALED(st)) {
+		if(WTERMSIG(st) == SIGABRT) return (err.find("Assertion") != std::string::npos && err.find("boost/multi") != std::string::npos) ? "abort assert-in-multi" : "abort other";
+		return "sig" + std::to_string(WTERMSIG(st));
+	}
+	return "unknown";
+}
+
+static volatile T g_sink = 0;
+
+template<multi::dimensionality_type D> void q_death_index(VS<D> const& s, long i, int variant) {
+	if constexpr(D == 0) { std::fprintf(fans, "death none\n"); }
+	else {
+		auto r = run_child([&] {
+			auto&& v = mk(s); auto const& cv = v;
+			if(variant == 0) { if constexpr(D == 1) { auto&& e = v[i]; g_sink = e; } else { auto&& sub = v[i]; g_sink = static_cast<T>(sub.num_elements()); } }
+			else if(variant == 1) { if constexpr(D == 1) { auto&& e = cv[i]; g_sink = e; } else { auto&& sub = cv[i]; g_sink = static_cast<T>(sub.num_elements()); } }
+			else { if constexpr(D == 1) { auto&& e = mk(s)[i]; g_sink = e; } else { auto&& sub = cv(i); g_sink = static_cast<T>(sub.num_elements()); } }
+		});
+		std::fprintf(fans, "death %s\n", r.c_str());
+	}
+}
+
+template<multi::dimensionality_type D> void q_death_assign(VS<D> const& a, AnyView const& bv, int variant) {
+	if constexpr(D == 0) { std::fprintf(fans, "death none\n"); }
+	else {
+		if(!std::holds_alternative<VS<D>>(bv)) { std::fprintf(fans, "death bad-rank\n"); return; }
+		auto const& b = std::get<VS<D>>(bv);
+		auto r = run_child([&] {
+			auto&& va = mk(a); auto&& vb = mk(b);
+			if(variant == 0) { va = vb; } else if(variant == 1) { mk(a) = vb; } else { va = std::as_const(vb); }
+		});
+		std::fprintf(fans, "death %s\n", r.c_str());
 	}
 }
 
@@ -391,7 +463,44 @@ template<multi::dimensionality_type D> bool gen_op(VS<D> const& s, Rng& rng, boo
 }
 
 // which query families a run emits: C01 = shape/addrs/paths/bcast, C02 = iter/elems (+ shape), zero|rebased = all
-static bool g_q_shape = true, g_q_iter = true;
+static bool g_q_shape = true, g_q_iter = true, g_death = false;
+
+// every in-domain operation (with every in-domain argument) applicable to a view: used by the exhaustive small-scope mode
+template<multi::dimensionality_type D> void enumerate_ops(VS<D> const& s, bool rebased, std::vector<Op>& out) {
+	if constexpr(D == 0) { (void)s; (void)rebased; (void)out; }
+	else {
+		auto&& v = mk(s);
+		auto ex = exts_of(v); auto sz = sizes_of(v);
+		long f = ex[0].first, l = ex[0].last, n = sz[0];
+		bool allzero = std::all_of(ex.begin(), ex.end(), [](Ex const& e) { return e.first == 0; });
+		auto add = [&](char const* name, std::vector<long> a) { Op o; o.name = name; o.a = std::move(a); out.push_back(o); };
+		for(long i = f; i < l; ++i) add("index", {i});
+		for(long x = f; x <= l; ++x) for(long y = x; y <= l; ++y) add("sliced", {x, y});
+		for(long k = 1; k <= (n == 0 ? 2 : n); ++k) { if((n == 0 || n % k == 0) && f % k == 0) add("strided", {k}); }
+		for(long k = 0; k <= n; ++k) { add("dropped", {k}); add("taked", {k}); }
+		add("rotated", {}); add("unrotated", {}); add("reversed", {});
+		if constexpr(D >= 2) { add("transposed", {}); if(ex[0].first == 0 && ex[1].first == 0) add("diagonal", {}); if(allzero && v.is_flattable()) add("flatted", {}); }
+		if constexpr(D < MAXD) {
+			for(long k = 1; k <= (n == 0 ? 2 : n); ++k) { if(n == 0 || n % k == 0) add("partitioned", {k}); }
+			if(n > 0) { for(long k = 1; k <= n; ++k) { if(n % k == 0) add("chunked", {k}); } }
+		}
+		// call syntax: one argument per leading dimension, up to 2 arguments: index / a proper sub-range / ALL
+		for(int k = 1; k <= std::min<int>(static_cast<int>(D), 2); ++k) {
+			std::vector<std::vector<CallArg>> alts(static_cast<std::size_t>(k));
+			for(int j = 0; j < k; ++j) {
+				auto const& e = ex[static_cast<std::size_t>(j)];
+				if(e.last > e.first) { alts[static_cast<std::size_t>(j)].push_back(CallArg{0, e.first, 0}); alts[static_cast<std::size_t>(j)].push_back(CallArg{0, e.last - 1, 0}); }
+				alts[static_cast<std::size_t>(j)].push_back(CallArg{1, e.first, e.last});
+				if(e.last - e.first >= 2) alts[static_cast<std::size_t>(j)].push_back(CallArg{1, e.first + 1, e.last});
+				alts[static_cast<std::size_t>(j)].push_back(CallArg{1, e.first, e.first});
+				alts[static_cast<std::size_t>(j)].push_back(CallArg{2, 0, 0});
+			}
+			if(k == 1) { for(auto const& a0 : alts[0]) { Op o; o.name = "call"; o.call = {a0}; out.push_back(o); } }
+			else { for(auto const& a0 : alts[0]) for(auto const& a1 : alts[1]) { Op o; o.name = "call"; o.call = {a0, a1}; out.push_back(o); } }
+		}
+		if(rebased) { add("reindexed", {-1}); add("reindexed", {2}); if(n > 0) add("blocked", {f, l}); if(n >= 2) add("blocked", {f + 1, l}); }
+	}
+}
 
 static void emit_queries(AnyView const& av, int reg, Rng& rng, bool all) {
 	auto q = [&](char const* what) { std::fprintf(fprog, "q %s %d\n", what, reg); };
@@ -441,11 +550,15 @@ static void run_generated(std::uint64_t seed, long nprog, bool rebased) {
 		}
 		long base = 64 + rng.range(0, 9);
 		g_lo = base; g_hi = base + ne;
+#if PTR_KIND == 2
+		if(fancy::g_oob_deref != 0) { std::fprintf(fans, "OOB-DEREF %ld dereferences outside the storage\n", fancy::g_oob_deref); fancy::g_oob_deref = 0; }
+		fancy::xptr_bounds(g_lo, g_hi);
+#endif
 		std::fprintf(fprog, "prog %ld %llu\n", p, static_cast<unsigned long long>(seed)); std::fprintf(fans, "prog %ld %llu\n", p, static_cast<unsigned long long>(seed));
 		std::string rl = "root 0 " + std::to_string(base) + " " + std::to_string(D);
 		for(auto const& e : ex) rl += " " + std::to_string(e.first) + " " + std::to_string(e.last);
 		std::fprintf(fprog, "%s\n", rl.c_str());
-		AnyView cur = make_root_any(ex, g_mem + base);
+		AnyView cur = make_root_any(ex, make_ptr(base));
 		if(rng.coin(50)) emit_queries(cur, 0, rng, false);
 		int nops = static_cast<int>(rng.range(0, 7));
 		int src = 0;
@@ -460,6 +573,43 @@ static void run_generated(std::uint64_t seed, long nprog, bool rebased) {
 			if(rng.coin(25)) emit_queries(cur, 1, rng, false);
 		}
 		emit_queries(cur, src, rng, rng.coin(50));
+		if(g_death) {
+			auto cex = std::visit([](auto const& s) { return exts_of(mk(s)); }, cur);
+			auto cst = std::visit([](auto const& s) { return strides_of(mk(s)); }, cur);
+			if(!cex.empty() && cst[0] != 0) {
+				// indexing outside the extension must be stopped by an assertion
+				long k = rng.range(0, 2);
+				long i = rng.coin(50) ? cex[0].first - 1 - k : cex[0].last + k;
+				int iv = static_cast<int>(rng.range(0, 2));
+				std::fprintf(fprog, "q death_index %d %ld %d\n", src, i, iv);
+				std::visit([&](auto const& s) { q_death_index(s, i, iv); }, cur);
+				// inside the extension: silent
+				if(cex[0].size() > 0) {
+					long j = rng.range(cex[0].first, cex[0].last - 1);
+					int jv = static_cast<int>(rng.range(0, 2));
+					std::fprintf(fprog, "q death_index %d %ld %d\n", src, j, jv);
+					std::visit([&](auto const& s) { q_death_index(s, j, jv); }, cur);
+				}
+			}
+			if(!cex.empty() && cex.size() <= 4) {
+				// a second array with extents derived from the current view's: equal, one size changed, or two sizes swapped
+				std::vector<Ex> ex2 = cex; long ne2 = 1;
+				int kind = rng.pick({25, 45, 30});
+				if(kind == 1) { auto d = static_cast<std::size_t>(rng.range(0, static_cast<long>(ex2.size()) - 1)); long sz = ex2[d].size() + (rng.coin(50) && ex2[d].size() > 0 ? -1 : 1); ex2[d].last = ex2[d].first + sz; }
+				if(kind == 2 && ex2.size() >= 2) { auto d = static_cast<std::size_t>(rng.range(0, static_cast<long>(ex2.size()) - 2)); long s0 = ex2[d].size(), s1 = ex2[d + 1].size(); ex2[d].last = ex2[d].first + s1; ex2[d + 1].last = ex2[d + 1].first + s0; }
+				for(auto const& e : ex2) ne2 *= e.size();
+				if(ne2 <= 400) {
+					long base2 = 1024;
+					std::string rl = "root 2 " + std::to_string(base2) + " " + std::to_string(ex2.size());
+					for(auto const& e : ex2) rl += " " + std::to_string(e.first) + " " + std::to_string(e.last);
+					std::fprintf(fprog, "%s\n", rl.c_str());
+					AnyView second = make_root_any(ex2, make_ptr(base2));
+					int variant = static_cast<int>(rng.range(0, 2));
+					std::fprintf(fprog, "q death_assign %d 2 %d\n", src, variant);
+					std::visit([&](auto const& s) { q_death_assign(s, second, variant); }, cur);
+				}
+			}
+		}
 		// broadcast: the broadcasted view designates the source at every index of the new leading dimension
 		if(g_q_shape && rng.coin(20)) {
 			long i = rng.range(-5, 5);
@@ -470,6 +620,54 @@ static void run_generated(std::uint64_t seed, long nprog, bool rebased) {
 				else { auto&& v = mk(s); auto&& b = v.broadcasted(); auto&& bi = b[i]; return addr_of(bi.base()) == addr_of(v.base()) && bi.layout() == v.layout(); }
 			}, cur);
 			std::fprintf(fans, "bcast %d\n", same ? 1 : 0);
+		}
+	}
+}
+
+// exhaustive small scope: every root shape with D <= 3 and sizes 0..3 (bases 0, or -1/2 when rebased), every sequence of
+// in-domain operations of length <= depth (depth 2), all queries after the last operation; shapes are split among workers
+static void run_exhaustive(std::uint64_t seed, long depth, bool rebased) {
+	long nworkers = 16; if(char const* e = std::getenv("VERIF_WORKERS")) nworkers = std::atol(e);
+	long worker = static_cast<long>(seed % 1000) % nworkers;
+	Rng rng(seed);
+	std::vector<std::vector<Ex>> shapes;
+	for(int D = 1; D <= 3; ++D) {
+		long total = 1; for(int k = 0; k < D; ++k) total *= 4;
+		for(long code = 0; code < total; ++code) {
+			std::vector<Ex> ex; long c = code;
+			for(int k = 0; k < D; ++k) { long sz = c % 4; c /= 4; long f = rebased ? ((k % 2 == 0) ? -1 : 2) : 0; ex.push_back(Ex{f, f + sz}); }
+			shapes.push_back(ex);
+		}
+	}
+	long p = 0;
+	for(std::size_t si = 0; si < shapes.size(); ++si) {
+		if(static_cast<long>(si) % nworkers != worker) continue;
+		auto const& ex = shapes[si];
+		long ne = 1; for(auto const& e : ex) ne *= e.size();
+		long base = 64;
+		std::string rl = "root 0 " + std::to_string(base) + " " + std::to_string(ex.size());
+		for(auto const& e : ex) rl += " " + std::to_string(e.first) + " " + std::to_string(e.last);
+		AnyView root = make_root_any(ex, make_ptr(base));
+		std::vector<Op> ops1; std::visit([&](auto const& s) { enumerate_ops(s, rebased, ops1); }, root);
+		auto emit_prog = [&](std::vector<Op> const& seq) {
+			g_lo = base; g_hi = base + ne;
+#if PTR_KIND == 2
+			fancy::xptr_bounds(g_lo, g_hi);
+#endif
+			std::fprintf(fprog, "prog %ld %llu\n", p, static_cast<unsigned long long>(seed)); std::fprintf(fans, "prog %ld %llu\n", p, static_cast<unsigned long long>(seed)); ++p;
+			std::fprintf(fprog, "%s\n", rl.c_str());
+			AnyView cur = root; int src = 0;
+			for(auto const& op : seq) { std::fprintf(fprog, "%s\n", op_line(1, src, op).c_str()); cur = std::visit([&](auto const& s) { return apply_op(s, op, false); }, cur); src = 1; }
+			emit_queries(cur, src, rng, true);
+		};
+		emit_prog({});
+		for(auto const& o1 : ops1) {
+			emit_prog({o1});
+			if(depth >= 2) {
+				AnyView v1 = std::visit([&](auto const& s) { return apply_op(s, o1, false); }, root);
+				std::vector<Op> ops2; std::visit([&](auto const& s) { enumerate_ops(s, rebased, ops2); }, v1);
+				for(auto const& o2 : ops2) emit_prog({o1, o2});
+			}
 		}
 	}
 }
@@ -489,7 +687,7 @@ static void run_replay(char const* path) {
 			std::vector<Ex> ex; long ne = 1;
 			for(int k = 0; k < D; ++k) { ex.push_back(Ex{std::stol(w[4 + 2 * static_cast<std::size_t>(k)]), std::stol(w[5 + 2 * static_cast<std::size_t>(k)])}); ne *= ex.back().size(); }
 			g_lo = base; g_hi = base + ne;
-			regs[static_cast<std::size_t>(reg)] = make_root_any(ex, g_mem + base);
+			regs[static_cast<std::size_t>(reg)] = make_root_any(ex, make_ptr(base));
 		} else if(w[0] == "v") {
 			int dst = std::stoi(w[1]); int src = std::stoi(w[2]);
 			Op op; op.name = w[3];
@@ -508,6 +706,8 @@ static void run_replay(char const* path) {
 			else if(w[1] == "paths") std::visit([](auto const& s) { q_paths(s); }, av);
 			else if(w[1] == "iter") std::visit([](auto const& s) { q_iter(s); }, av);
 			else if(w[1] == "elems") std::visit([](auto const& s) { q_elems(s); }, av);
+			else if(w[1] == "death_index") { long i = std::stol(w[3]); int iv = w.size() > 4 ? std::stoi(w[4]) : 0; std::visit([&](auto const& s) { q_death_index(s, i, iv); }, av); }
+			else if(w[1] == "death_assign") { int variant = std::stoi(w[4]); auto const& bv = regs[static_cast<std::size_t>(std::stoi(w[3]))]; std::visit([&](auto const& s) { q_death_assign(s, bv, variant); }, av); }
 			else if(w[1] == "bcast") {
 				long i = std::stol(w[4]);
 				bool same = std::visit([&](auto const& s) {
@@ -526,15 +726,20 @@ int main(int argc, char** argv) {
 	std::uint64_t seed = std::strtoull(argv[1], nullptr, 10);
 	long nprog = std::strtol(argv[2], nullptr, 10);
 	std::string mode = argv[3];
-	bool rebased = mode == "rebased" || mode == "rebased-c02";
+	bool rebased = mode == "rebased" || mode == "rebased-c02" || mode == "exhaustive-rebased";
 	if(mode == "c01") { g_q_iter = false; }
+	if(mode == "death") { g_death = true; g_q_iter = false; }
 	if(mode == "c02" || mode == "rebased-c02") { g_q_shape = false; }
 	fprog = std::fopen(argv[4], "w"); fans = std::fopen(argv[5], "w");
 	if(!fprog || !fans) { std::perror("fopen"); return 2; }
 	g_storage.assign(4096, 0);
 	for(std::size_t i = 0; i < g_storage.size(); ++i) g_storage[i] = static_cast<T>(i);
 	g_mem = g_storage.data();
+#if PTR_KIND != 0
+	fancy::g_origin = g_mem;
+#endif
 	if(argc >= 8 && std::string(argv[6]) == "--replay") run_replay(argv[7]);
+	else if(mode == "exhaustive" || mode == "exhaustive-rebased") run_exhaustive(seed, 2, mode == "exhaustive-rebased");
 	else run_generated(seed, nprog, rebased);
 	std::fclose(fprog); std::fclose(fans);
 	return g_internal ? 3 : 0;
